@@ -243,6 +243,10 @@ func corpus(r *core.Run, key []byte) {
 		// value classes of the JSON path (repo patch 51: numbers above 2^53 are written as logged)
 		oneHistory(r, format, key, []entrySpec{e("start", nil), e("ids", logrus.Fields{"session": uint64(math.MaxUint64), "n": int64(9007199254740993), "amount": 0.1, "f": 1e21}), e("next", nil)}, true)
 		oneHistory(r, format, key, []entrySpec{e("bad\xffutf8 <&> \u2028", logrus.Fields{"b": []byte("x\xff"), "err": errors.New("boom <"), "s": jsonStruct{A: 1 << 60, B: "\xc0\xaf"}, "nil": (*jsonStruct)(nil), "t": t0}), e("next", nil)}, true)
+		// values that are NOT Go strings but print with line breaks and separators: a two-line database error, a slice, a byte
+		// slice (seeded change C20-4: the CEF formatter cleans only string values – the entry is then written as two lines)
+		oneHistory(r, format, key, []entrySpec{e("start", nil), e("db error", logrus.Fields{"error": errors.New("pq: syntax error at or near \"x\"\nLINE 1: select x\r\n        ^"),
+			"list": []string{"a\nb", "c|d=e"}, "raw": []byte("x\ny"), "sep": errors.New("a\tb|c=d\\e")}), e("next", nil)}, true)
 	}
 	numberWitness(r, key)
 }
@@ -365,7 +369,9 @@ func oneHistory(r *core.Run, format string, key []byte, specs []entrySpec, adver
 	// every line of an honest log must have been delivered and be protected (else alterations go unnoticed)
 	nl := bytes.Count(file, []byte("\n"))
 	r.Check(len(lines) == nl, "lines-not-delivered:"+class, fmt.Sprintf("the log has %d lines, the reader delivers %d", nl, len(lines)))
-	fileShapes(r, format, key, file, lines, class)
+	if !r.Thorough() || rd.Chance(15) { // thorough: 3000 histories – the file shapes on about 450 of them
+		fileShapes(r, format, key, file, lines, class)
+	}
 	// clause 2: alterations
 	// wrong key
 	wk := append([]byte{}, key...)
@@ -597,7 +603,7 @@ func readerCases(r *core.Run) {
 	for _, f := range fixed {
 		files = append(files, []byte(f))
 	}
-	for n := 0; n < r.N(120, 3000); n++ {
+	for n := 0; n < r.N(120, 1500); n++ {
 		var b bytes.Buffer
 		k := rd.Intn(6)
 		for i := 0; i < k; i++ {
